@@ -155,10 +155,13 @@ func HarnessC13PollardRoundTrip() {
 		c06ObservePollard(q, w.rm, v, refPickCombo("req", w.rm.liveSlots(), verifParam("K", 1)), "C13.pollard.restored")
 		verifAssert(q.NumDels == w.p.NumDels, "C13.pollard.restored.numDels")
 		if verifParam("evolve", 0) == 1 {
-			b := w.rm.refBlock(v, 1, 1)
+			b := w.rm.refBlock(v, 1, verifParam("A2", 2))
 			verifAssert(q.Modify(c01Leaves(b.adds, true), b.hashes, b.proof) == nil, "C13.pollard.restored.modify")
 			nrm := w.rm.apply(b)
-			c01CheckRoots(q.GetRoots(), q.GetNumLeaves(), nrm.view(), "C13.pollard.restored.evolves")
+			nv := nrm.view()
+			c01CheckRoots(q.GetRoots(), q.GetNumLeaves(), nv, "C13.pollard.restored.evolves")
+			// the restored forest keeps proving every live leaf after the block
+			c06ObservePollard(q, nrm, nv, nrm.liveSlots(), "C13.pollard.restored.evolved")
 		}
 	}
 	verifReach("C13.pollard.roundtrip")
@@ -244,7 +247,9 @@ func HarnessC13MapRoundTrip() {
 			b := w.rm.refBlock(v, 1, 1)
 			verifAssert(q.Modify(c01Leaves(b.adds, false), b.hashes, b.proof) == nil, "C13.map.restored.modify")
 			nrm := w.rm.apply(b)
-			c01CheckRoots(q.GetRoots(), q.GetNumLeaves(), nrm.view(), "C13.map.restored.evolves")
+			nv := nrm.view()
+			c01CheckRoots(q.GetRoots(), q.GetNumLeaves(), nv, "C13.map.restored.evolves")
+			c06ObserveMap(&q, nrm.liveSlots(), nrm, nv, nrm.liveSlots(), "C13.map.restored.evolved")
 		}
 	}
 	verifReach("C13.map.roundtrip")
